@@ -212,15 +212,18 @@ let () =
                (if String.length expected > 3 then unhex (String.sub expected 3 (String.length expected - 3)) else expected)
                (match r with Some x -> string_of_text x | None -> "ERR"))
       | "GOFAIL" :: o :: msg :: _ -> fail o msg
-      | ["CASE"; opt; lint; sw; lmpath; cfg; fontspec; clifont; climax; expect; hexsrc; kind; payload] ->
+      | ["CASE"; opt; lint; sw; lmraw; cfg; fontspec; clifont; climax; expect; hexsrc; kind; payload] ->
           incr total; incr e2ec;
-          Hashtbl.replace distinct (String.concat "\t" [opt; lint; sw; lmpath; cfg; fontspec; clifont; climax; hexsrc]) ();
+          Hashtbl.replace distinct (String.concat "\t" [opt; lint; sw; lmraw; cfg; fontspec; clifont; climax; hexsrc]) ();
           let src = unhex hexsrc in
+          let lm_on = String.length lmraw >= 2 && lmraw.[0] = '1' in
+          let lmpath = if String.length lmraw >= 2 then unhex (String.sub lmraw 2 (String.length lmraw - 2)) else "" in
+          let lmpath = if lm_on then lmpath else "" in
           let fcx = if lint = "1" then { fcDefault = []; fcFonts = [] } else if fontspec = "" then !repo_font else parse_fontspec fontspec in
           let autovars = mk_autovars cfg in
           let switches = mk_switches sw in
           let r = compile is_l is_d is_s autovars switches (lint = "0") fcx (text_of_string clifont) (zi (int_of_string climax)) (opt = "1")
-                    (if lmpath = "" then None else Some (text_of_string (unhex lmpath))) (text_of_string src) in
+                    (if lmpath = "" then None else Some (text_of_string lmpath)) (text_of_string src) in
           let got = match r with
             | OutText x -> incr okc; ROk (string_of_text x)
             | OutErr e -> incr errc; RErr [| int_of_z e.els; int_of_z e.ele; int_of_z e.ecs; int_of_z e.eus; int_of_z e.ece; int_of_z e.eue |]
@@ -259,7 +262,7 @@ let () =
             | _ -> ()
           end;
           if has "hist" then begin
-            let key = String.concat "\t" [opt; lint; sw; lmpath; cfg; fontspec; clifont; climax; hexsrc] in
+            let key = String.concat "\t" [opt; lint; sw; lmraw; cfg; fontspec; clifont; climax; hexsrc] in
             (match Hashtbl.find_opt hist key with
              | Some prev -> if prev <> kind ^ "\t" ^ payload then fail "hist" (Printf.sprintf "the same input compiled twice in one process gave different results: %S" src)
              | None -> Hashtbl.replace hist key (kind ^ "\t" ^ payload))
@@ -287,10 +290,10 @@ let () =
               layout_group := []
             end
           end;
-          if has "sem" && lint = "0" && lmpath = "" && (sem_mode = "semall" || mism) && !sem_budget > 0 then begin
+          if has "sem" && lint = "0" && lmpath = "" && (mism || (sem_mode = "semall" && !sem_budget > 0)) then begin
             match impl with
             | ROk out ->
-                decr sem_budget; incr semcases;
+                if not mism then decr sem_budget; incr semcases;
                 (match oracle is_l is_d is_s autovars switches fcx (text_of_string src) (text_of_string out) (nat_of_int oracle_seeds) (nat_of_int oracle_fs) (nat_of_int oracle_ft) with
                  | Some rs ->
                      List.iter (fun (name, r) ->
